@@ -43,7 +43,7 @@ def run_net(args):
     seed, idx, stratum, cfgs = args
     net = make_net(seed, idx, stratum)
     text = gen_chan.to_source(net)
-    d = os.path.join(WORK, '%s_%d' % (stratum, idx))
+    d = os.path.join(WORK, '%s_%d_%d' % (stratum, seed, idx))
     os.makedirs(d, exist_ok=True)
     path = os.path.join(d, 'main.lay')
     with open(path, 'w') as fh:
@@ -67,7 +67,8 @@ def run_net(args):
             'steps': (r.stats or {}).get('steps', 0),
             'received': {c: [v for v in seq] for c, seq in received_of(h).items()},
         })
-    return {'idx': idx, 'stratum': stratum, 'net': net, 'text': text, 'model': model, 'runs': runs, 'n_ops': n_ops}
+    return {'idx': idx, 'stratum': stratum, 'net': net, 'text': text, 'model': model, 'runs': runs, 'n_ops': n_ops,
+            'seed': seed}
 
 
 def received_of(h):
